@@ -16,6 +16,8 @@ pub struct World {
     pub ids: HashMap<Node, usize>,
     pub cons: bool,
     pub ever_off: bool,
+    /// a second store obtained by Xot::clone (C12); projected through the same handles
+    pub twin: Option<Box<Xot>>,
     /// set when a bounded walk hit its bound or a parent chain did not end: the structure is corrupt
     pub corrupt: bool,
 }
@@ -36,7 +38,7 @@ pub fn from_cps(v: &J) -> String {
 
 impl World {
     pub fn new() -> Self {
-        World { xot: Xot::new(), handles: vec![], ids: HashMap::new(), cons: true, ever_off: false, corrupt: false }
+        World { xot: Xot::new(), handles: vec![], ids: HashMap::new(), cons: true, ever_off: false, twin: None, corrupt: false }
     }
 
     pub fn id_of(&mut self, n: Node) -> usize {
@@ -189,7 +191,26 @@ impl World {
                 }
             }
         }
-        json!({"n": nodes, "cons": self.cons, "eo": self.ever_off, "rs": rs, "bad": if self.corrupt { "walk-bound" } else { "" }})
+        // the other store (if any), projected through the same handles; handles that only exist on this side are skipped
+        let tw = if self.twin.is_some() {
+            let mut other = self.twin.take().unwrap();
+            std::mem::swap(&mut self.xot, &mut *other);
+            let was_corrupt = self.corrupt;
+            let tn: Vec<J> = (1..=n).map(|id| {
+                let h = self.h(id);
+                match std::panic::catch_unwind(std::panic::AssertUnwindSafe(|| self.xot.is_removed(h))) {
+                    Ok(_) => std::panic::catch_unwind(std::panic::AssertUnwindSafe(|| self.project_node(id))).unwrap_or(json!({"k":"?"})),
+                    Err(_) => json!({"k":"absent"}),
+                }
+            }).collect();
+            std::mem::swap(&mut self.xot, &mut *other);
+            self.twin = Some(other);
+            self.corrupt = was_corrupt;
+            json!({"has": true, "n": tn})
+        } else {
+            json!({"has": false, "n": []})
+        };
+        json!({"n": nodes, "cons": self.cons, "eo": self.ever_off, "rs": rs, "bad": if self.corrupt { "walk-bound" } else { "" }, "tw": tw})
     }
 
     /// Build a world from an abstract state (as dumped by TLC or logged earlier).  Ids are preserved.
